@@ -41,7 +41,7 @@ def run(F, chk):
     stages = lcstage.find_stage(F)
     L1.floor('lifecycle stage functions (anchor: evmap::WriteHandle + Receiver<DltMessage> params)', len(stages), 1)
     for b in stages:
-        res = lin.run_linearity(b, own.OwnSpec(), L1, L2, L7, min_recv=4, min_send=5, min_store=1)
+        res = lin.run_linearity(b, own.OwnSpec(), L1, L2, L7, min_recv=2, min_send=3, min_store=1)
         for cl in F.closures_of(b.path):
             if any(l['cm'] for l in cl.locals):
                 lin.run_linearity(cl, own.OwnSpec(), L1, L2, L7)
@@ -123,7 +123,7 @@ def check_drain(st, Q3):
     lcs_tests = set(st.blocks_with('LCS_IS_EMPTY'))
     recvs = set(st.blocks_with('RECV_IN'))
     Q3.floor('un-buffering sites (buffered_lcs.remove)', len(removes), 3)
-    Q3.floor('queue emptiness tests', len(qtests), 3)
+    Q3.floor('queue emptiness tests', len(qtests), 2)
 
     def block_effect(b, facts):
         if b.i in removes:
@@ -226,6 +226,7 @@ def check_queue_release(st, Q5):
     Otherwise a message of a still unconfirmed lifecycle is forwarded: after a later merge it carries an id that denotes no
     lifecycle, and it is delivered before its lifecycle is published."""
     body, cfg, E = st.body, st.cfg, st.E
+    EF = ExprBuilder(cfg, fold_named=True)
     Q5.fn(body.path)
     pops = sorted(st.blocks_with('POP'))
     removes = set(st.blocks_with('LCS_REMOVE'))
@@ -235,7 +236,7 @@ def check_queue_release(st, Q5):
     for hd, lb in loops.items():
         if recvs & lb and (recv_loop is None or len(lb) > len(recv_loop)):
             recv_loop = lb
-    Q5.floor('pop_front sites of the message queue', len(pops), 3)
+    Q5.floor('pop_front sites of the message queue', len(pops), 2)
 
     def facts_at(bi):
         out = []
@@ -267,28 +268,81 @@ def check_queue_release(st, Q5):
             if not_buffered_known(bi):
                 continue
             # defined behind an un-buffering of a lifecycle: some LCS_REMOVE block dominates the definition
-            if any(cfg.dominates(r, bi) for r in removes) and '.id' in show(E.rvalue(d.rv)):
+            if any(cfg.dominates(r, bi) for r in removes) and ('.id' in show(E.rvalue(d.rv)) or '.id' in show(EF.rvalue(d.rv))):
                 continue
             return None
         return 'every definition of `%s` is the id of a lifecycle just removed from buffered_lcs or of a lifecycle tested as not buffered' % name
 
+    # path-sensitive: the justification may sit on a branch that joins before the pop (`let site = if id == prune {1} else if
+    # !contains(id) {2} else {break}; pop`): explore with one fact that the justifying *edges* set and every pop / receive clears
+    from paths import Explorer
+    from facts import Operand as _Op
+
+    def edge_just(b2, tgt):
+        if b2.term.k != 'switch':
+            return None
+        c = E.switch_cond(b2)
+        vals = b2.term.d['vals']
+        edge_true = None
+        for v, t in vals:
+            if t == tgt:
+                edge_true = (v != 0)
+        if edge_true is None and b2.term.d['otherwise'] == tgt and all(v == 0 for v, _ in vals):
+            edge_true = True
+        if edge_true is None:
+            return None
+        c2, t2 = guards.normalise(c, edge_true)
+        if isinstance(c2, tuple) and c2[0] == 'call' and 'HashSet' in show(c2):
+            nm = c2[1].split('::')[-1]
+            if nm == 'is_empty' and t2 is True:
+                return 'buffered_lcs.is_empty()'
+            if nm == 'contains' and t2 is False:
+                return '!buffered_lcs.contains(..)'
+        if isinstance(c2, tuple) and c2[0] == 'bin' and c2[1] == 'Eq' and t2 is True:
+            for side in (c2[2], c2[3]):
+                if isinstance(side, tuple) and side[0] == 'place' and len(side) == 2:
+                    jj = local_justified(side[1])
+                    if jj:
+                        return jj
+        return None
+    popset = set(pops)
+
+    def block_effect(b2, facts):
+        return facts
+
+    inserts = set(st.blocks_with('LCS_INSERT'))
+
+    def edge_effect(b2, tgt, facts):
+        # knowledge about the front message dies with the pop (another message is in front then); the knowledge that nothing
+        # is buffered lives until something is inserted into buffered_lcs
+        if b2.i in popset or b2.i in recvs:
+            facts = frozenset(f for f in facts if f[0] != 'just')
+        if b2.i in inserts:
+            facts = frozenset(f for f in facts if f[0] != 'none_buffered')
+        why_ = edge_just(b2, tgt)
+        if why_ == 'buffered_lcs.is_empty()':
+            facts = frozenset(facts | {('none_buffered',)})
+        elif why_:
+            facts = frozenset([f for f in facts if f[0] != 'just'] + [('just', why_)])
+        return facts
+    ex = Explorer(cfg, block_effect=block_effect, edge_effect=edge_effect, var_roots=set())
+    ex.run()
+    Q5.paths += ex.n_states
     for p in pops:
         if recv_loop is not None and p not in recv_loop:
             continue     # final flush
         Q5.sites += 1
-        why = not_buffered_known(p)
-        if why is None:
-            for (kind, c, truth) in facts_at(p):
-                if kind == 'Eq' and truth is True:
-                    for side in (c[2], c[3]):
-                        if isinstance(side, tuple) and side[0] == 'place' and len(side) == 2:
-                            j = local_justified(side[1])
-                            if j:
-                                why = j
+        sts = ex.states.get(p, ())
+        bad = [st for st in sts if not any(f[0] in ('just', 'none_buffered') for f in st[1])]
+        why = None
+        if sts and not bad:
+            ws = sorted(set(f[1] for st in sts for f in st[1] if f[0] == 'just'))
+            why = ws[0] if ws else 'buffered_lcs.is_empty() (nothing inserted since)'
         if why:
-            Q5.ok(sample={'pop_at': body.loc(body.blocks[p].term.sp), 'justified_by': why})
+            Q5.ok(sample={'pop_at': body.loc(body.blocks[p].term.sp), 'justified_by': why, 'path_states': len(sts)})
         else:
             Q5.violation(('queue-release-unjustified', body.path, 'site%d' % pops.index(p)),
-                         'a message is taken out of the queue at %s (and forwarded) although nothing known there shows that its lifecycle is no longer buffered '
-                         '(no buffered_lcs.is_empty(), no !buffered_lcs.contains(id), no equality with the id of a just confirmed lifecycle)' % body.loc(body.blocks[p].term.sp),
-                         where=body.loc(body.blocks[p].term.sp))
+                         'a message is taken out of the queue at %s (and forwarded) although, on some path, nothing shows that its lifecycle is no longer buffered '
+                         '(no buffered_lcs.is_empty(), no !buffered_lcs.contains(id), no equality with the id of a just confirmed lifecycle since the previous pop)' % body.loc(body.blocks[p].term.sp),
+                         where=body.loc(body.blocks[p].term.sp), witness={'block_path': ex.witness(p, bad[0])[-40:]} if bad else None)
+
